@@ -210,6 +210,51 @@ def iter_keys(value):
     yield from go(value)
 
 
+# ---------------------------------------------------------------- load order of written documents (clause "order", load side)
+# pairwise unequal after construction by every loader (the plain '=' becomes the str '=': no quoted '=' next to it)
+KEYTEXTS = ['a', 'b c', '7', '1.5', 'true', '~', '2001-01-01', '=', '"<<"', '0x1F', '.inf', '? x', '? "q r"']
+
+
+def written_documents(tier):
+    """mappings without merge keys whose keys are one plain text of every resolver class (incl. '=' and a quoted / tagged '<<'),
+    every ordered triple (quick: every ordered pair plus a third key), block and flow style; the value of a key is its position"""
+    docs = []
+    ks = [k for k in KEYTEXTS if not k.startswith('? ')]
+    if tier == 'quick':
+        triples = [(a, b, 'z') for a in ks for b in ks if a != b] + [('z', a, b) for a in ks for b in ks if a != b]
+    else:
+        triples = [(a, b, c) for a in ks for b in ks for c in ks if len({a, b, c}) == 3]
+    for t in triples:
+        docs.append(('block', t, ''.join('%s: %d\n' % (k, i) for i, k in enumerate(t))))
+        docs.append(('flow', t, '{' + ', '.join('%s: %d' % (k, i) for i, k in enumerate(t)) + '}\n'))
+        docs.append(('nested', t, 'top:\n- ' + ''.join('%s%s: %d\n' % ('  ' if i else '', k, i) for i, k in enumerate(t))))
+    for a in ks:                                   # complex keys next to it
+        docs.append(('qkey', ('? x', a, '? "q r"'), '? x\n: 0\n%s: 1\n? "q r"\n: 2\n' % a))
+    return docs
+
+
+def written_order_work(docs):
+    yaml = use_repo()
+    loaders = ['SafeLoader', 'CSafeLoader', 'FullLoader', 'CFullLoader', 'UnsafeLoader', 'CUnsafeLoader', 'BaseLoader', 'CBaseLoader']
+    out = []
+    for style, keys, text in docs:
+        for ln in loaders:
+            L = getattr(yaml, ln, None)
+            if L is None:
+                continue
+            try:
+                d = yaml.load(text, Loader=L)
+                if style == 'nested':
+                    d = d['top'][0]
+                load = ['p%s' % x for x in d.values()]
+            except Exception as e:       # noqa
+                load = ['error:' + type(e).__name__]
+            pos = ['p%d' % i for i in range(len(keys))]
+            out.append(({'kind': 'order', 'sort': False, 'outs': [], 'ins': [pos], 'doc': [pos], 'load': [load]},
+                        {'loader': ln, 'style': style, 'keys': list(keys), 'text': text}))
+    return out
+
+
 def main(tier, replay=None):
     v = Verdict('C16', tier)
     yaml = use_repo()
@@ -283,6 +328,18 @@ def main(tier, replay=None):
     traces = order + [(k, i, meta) for k, (i, meta) in uniq.items()]
     verdicts, tstates = judge_det([t for t, _, _ in traces], 'C16_td')
     phases['records_and_tlc_trace_judgement_s'] = round(time.time() - t0, 1)
+    # load side of the order clause on written documents (keys of every resolver class; dump never writes a plain '=')
+    wdocs = written_documents(tier) if not replay else []
+    with mp.Pool(16) as pool:
+        wrecs = [x for part in pool.map(written_order_work, [wdocs[i::32] for i in range(32)]) for x in part]
+    wverd, wstates = judge_det([('', json.dumps(t, sort_keys=True)) for t, _ in wrecs], 'C16_written') if wrecs else ([], 0)
+    tstates += wstates
+    wrej = 0
+    for (t, meta), (ok, why, at) in zip(wrecs, wverd):
+        if not ok:
+            wrej += 1
+            v.violation({'clause': 'order', 'side': 'load of a written document', 'loader': meta['loader'], 'style': meta['style']},
+                        {'document': meta['text'], 'keys': meta['keys'], 'loaded_positions': t['load'][0]})
     applies = {}
     rejected = 0
     for (t, i, meta), (ok, why, at) in zip(traces, verdicts):
@@ -310,7 +367,7 @@ def main(tier, replay=None):
         samples.append({'value': repr(value)[:140], 'options': rec['opts']})
     v.cov = {'phases': phases, 'states': states + tstates, 'transitions': trans, 'model_states': states, 'traces_validated_against_impl': runs_total,
              'values': len(recipes), 'interpreters_hashseeds': hashseeds, 'insertion_order_variants': variants,
-             'records_judged_by_tlc': nrec, 'distinct_records': len(traces), 'rejected_by_tlc': rejected,
+             'records_judged_by_tlc': nrec + len(wrecs), 'written_documents_loaded_for_key_order': len(wdocs), 'written_document_records_rejected': wrej, 'distinct_records': len(traces), 'rejected_by_tlc': rejected,
              'records_where_clause_applies': applies, 'exhaustive': True,
              'distinct_nontrivial': sum(1 for r in recipes if r.get('alias') or r['kind'] == 'random'),
              'rule': 'one trace = one yaml.dump / dump(load(dump)) / dump_all of a value in one interpreter; a record groups the digests of '
